@@ -225,15 +225,19 @@ def refused_job(arg):
     for i in range(1, len(comps)):
         files["/".join(comps[:i]) + "/__init__.py"] = "# pkg\n"
     files["/".join(comps) + ".py"] = "import dds\nfrom vp import vlog\n\n\n@dds.data_function('/c14/refused')\ndef nd():\n    vlog.hit('nd')\n    return 1\n"
-    accept = ["other_%d_%d" % (idx, i) for i in range(n_other)]
+    # an accepted module whose function reaches the non-accepted data function at run time
+    files["acc_%d/__init__.py" % idx] = "# accepted\n"
+    files["acc_%d/caller.py" % idx] = "import dds\nfrom vp import vlog\nimport %s as nmod\n\n\ndef helper():\n    vlog.hit('helper')\n    return nmod.nd()\n\n\ndef kept_caller():\n    vlog.hit('kept_caller')\n    return ('kept_caller', helper())\n\n\ndef caller():\n    vlog.hit('caller')\n    return ('caller', dds.keep('/c14/caller_inner', kept_caller))\n" % mod
+    accept = ["other_%d_%d" % (idx, i) for i in range(n_other)] + ["acc_%d" % idx]
     case = {"refused": True, "idx": idx, "depth": depth, "n_other": n_other, "module": mod}
     with core.Scratch("vp_c14r_") as td:
         root = os.path.join(td, "code")
         os.makedirs(root)
         outs = []
-        for style in ("call", "eval"):
+        for style in ("call", "eval", "reached from accepted code"):
+            ent = {"style": style, "module": mod, "func": "nd", "args_src": "()"} if style != "reached from accepted code" else {"style": "eval", "module": "acc_%d.caller" % idx, "func": "caller", "args_src": "()"}
             seg = {"mode": "impl", "root": root, "accept": accept, "store": {"kind": "local", "dir": os.path.join(td, "store")},
-                   "steps": [{"write": files, "how": "import", "modules": [mod], "entry": {"style": style, "module": mod, "func": "nd", "args_src": "()"}, "post_loads": ["/c14/refused"]}]}
+                   "steps": [{"write": files, "how": "import", "modules": [mod, "acc_%d.caller" % idx], "entry": ent, "post_loads": ["/c14/refused"]}]}
             o = core.fork_call(run_segment, seg, timeout=300)
             if isinstance(o, core.JobFailed):
                 rep.inconclusive.append("worker: %r" % (o,))
